@@ -53,7 +53,7 @@ class MakeTasks(Source[Iterable[Task]]):
         restored_lrns = set(self._restored.learners['learner_id'])
         restored_envs = set(self._restored.environments['environment_id'])
         restored_vals = set(self._restored.evaluators['evaluator_id'])
-        restored_outs = set(zip(*self._restored.interactions[['environment_id','learner_id','evaluator_id']]))
+        restored_outs = self._restored.evaluated #includes evaluations that were recorded without any interactions
 
         learner_counts = Counter([l for _,l,_ in self._triples])
 
